@@ -1,4 +1,4 @@
-\* repaired model: chain 0..10 (+3), Retained 0, one batch per block, min-age off, 5 operations; exhaustive
+\* repaired model: chain 0..10 (+3), Retained 0, one batch per block, min-age off, 7 operations; exhaustive: 1 595 216 distinct states (6 745 956 generated), 30 s on 8 workers
 CONSTANTS
   MaxH = 13
   InitH = 10
